@@ -2,7 +2,7 @@ open Model
 open Fpmodel
 (* validate <cls> <input tokens>  ->  "<OUTCOME> <in_domain 0/1>"
    input tokens (see harness/engines/c19.py:tokens):
-     nodes_str:list bool, n_edges, acyclic, has_source, has_sink, origin(0 edge,1 node,2 other),
+     nodes_str:list bool, n_edges, acyclic, has_selfloop, ign_pct(0 none,1 in range,2 out), trust_pct, has_source, has_sink, origin(0 edge,1 node,2 other),
      wtype(0 int,1 float,2 other), elems:list (w(0 pos,1 zero,2 neg,3 missing) ign), conserving,
      k:(0 z | 1 num den), cons:list (is_list items:list (kind in_graph)), cov:(num den), cov_len:(0 | 1 num den), has_len_attr,
      starts:list bool, ends:list bool, ign:list (kind in_graph), search_enters *)
@@ -18,7 +18,9 @@ let () = register "validate" (fun () ->
   let c = cls_of_int (next ()) in
   let nodes_str = next_list next_bool in
   let n_edges = next_nat () in
-  let acyclic = next_bool () in let has_source = next_bool () in let has_sink = next_bool () in
+  let acyclic = next_bool () in let has_selfloop = next_bool () in
+  let pct () = (match next () with 0 -> PNone | 1 -> PInRange | _ -> POutOfRange) in
+  let ign_pct = pct () in let trust_pct = pct () in let has_source = next_bool () in let has_sink = next_bool () in
   let origin = (match next () with 0 -> OEdge | 1 -> ONode | _ -> OOther) in
   let wtype = (match next () with 0 -> TInt | 1 -> TFloat | _ -> TOther) in
   let elems = next_list (fun () -> let w = (match next () with 0 -> WPos | 1 -> WZero | 2 -> WNeg | _ -> WMissing) in
@@ -32,7 +34,7 @@ let () = register "validate" (fun () ->
   let starts = next_list next_bool in let ends = next_list next_bool in
   let ign = next_list next_item in
   let search_enters = next_bool () in
-  let i = { nodes_str = nodes_str; n_edges = n_edges; acyclic = acyclic; has_source = has_source; has_sink = has_sink;
+  let i = { nodes_str = nodes_str; n_edges = n_edges; acyclic = acyclic; has_selfloop = has_selfloop; ign_pct = ign_pct; trust_pct = trust_pct; has_source = has_source; has_sink = has_sink;
             origin = origin; wtype = wtype; elems = elems;
             conserving = conserving; k = k; cons = cons; cov = cov; cov_len = cov_len; has_len_attr = has_len_attr; starts = starts; ends = ends; ign = ign;
             search_enters = search_enters } in
